@@ -24,11 +24,12 @@ const (
 var dirName = [2]string{"c2s", "s2c"}
 
 type Rule struct {
-	Dir   int
-	Frame int    // 1-based index among the data messages of that direction; 0 = the next one
-	Pos   string // before | cut-hdr | cut-payload | cut-last | after | blackhole | hold
-	Style string // fin | rst
-	fired bool
+	Dir     int
+	Frame   int    // 1-based index among the data messages of that direction; 0 = the next one
+	Pos     string // before | cut-hdr | cut-payload | cut-last | after | blackhole | hold | rewrite
+	Style   string // fin | rst
+	Payload []byte // rewrite: replaces the message (server-to-client, single unmasked frame)
+	fired   bool
 }
 
 type Proxy struct {
@@ -40,6 +41,8 @@ type Proxy struct {
 	down   bool
 	policy func(pc *PConn) // called for every accepted connection before any byte moves
 	wg     sync.WaitGroup
+	quiet  bool // log only the first channel-value frames of a connection (very long streams)
+	nvals  int
 }
 
 type PConn struct {
@@ -340,6 +343,18 @@ func (pc *PConn) pump(dir int, src, dst net.Conn) {
 				black = true
 			case "hold":
 				pc.Hold(dir)
+			case "rewrite":
+				if dir == S2C && fin {
+					nh := []byte{0x80 | op}
+					switch {
+					case len(rule.Payload) < 126:
+						nh = append(nh, byte(len(rule.Payload)))
+					default:
+						nh = append(nh, 126, byte(len(rule.Payload)>>8), byte(len(rule.Payload)))
+					}
+					raw = append(nh, rule.Payload...) // what the client sees; the log keeps what the server really sent
+					pc.p.rec.Emit("WireFault", "conn", pc.ID, "fault", "rewrite", "dir", dirName[dir], "frame", idx)
+				}
 			default:
 				cut := 0
 				switch rule.Pos {
@@ -400,6 +415,15 @@ func (pc *PConn) logMsg(dir int, op byte, msg []byte, fragOK bool) {
 	kind, id, chid, wf := classifyMsg(msg)
 	if !fragOK {
 		wf = false
+	}
+	if kind == "chval" && pc.p.quiet && wf {
+		pc.p.mu.Lock()
+		pc.p.nvals++
+		n := pc.p.nvals
+		pc.p.mu.Unlock()
+		if n > 60 {
+			return
+		}
 	}
 	if kind == "req" || kind == "notif" {
 		// harness methods carry their call token as first parameter
